@@ -155,7 +155,7 @@ Fixpoint dedup_sig (rs : cls) (l : list N) : list N :=
 
 (* one representative symbol per class of the partition induced by rs *)
 Definition representatives (rs : cls) : list N :=
-  dedup_sig rs (cands rs).
+  dedup_sig rs (nodup N.eq_dec (cands rs)).
 
 (* ---------------------------------------------------------------- exploration *)
 
@@ -194,12 +194,15 @@ Definition closed (reps : list N) (V : list pair) : bool := forallb (step_ok rep
 
 Definition explore_fuel : nat := N.to_nat 400000.
 
-Definition incl_run (r1 r2 : re) : xres :=
-  explore explore_fuel (representatives (ranges r1 ++ ranges r2)) [((r1, r2), [])] [].
-
-Definition incl (r1 r2 : re) : bool :=
-  match incl_run r1 r2 with
-  | XOk V =>
-      (is_emp r1 || pmem (r1, r2) V) && closed (representatives (ranges r1 ++ ranges r2)) V
+Definition incl_with (reps : list N) (r1 r2 : re) : bool :=
+  match explore explore_fuel reps [((r1, r2), [])] [] with
+  | XOk V => (is_emp r1 || pmem (r1, r2) V) && closed reps V
   | _ => false
   end.
+
+Definition incl (r1 r2 : re) : bool :=
+  incl_with (representatives (ranges r1 ++ ranges r2)) r1 r2.
+
+(* for diagnostics: the exploration result (counter-word) *)
+Definition incl_run (r1 r2 : re) : xres :=
+  explore explore_fuel (representatives (ranges r1 ++ ranges r2)) [((r1, r2), [])] [].
